@@ -72,6 +72,11 @@ func (f *File) add(msg reflect.Value) {
 	x := msg.Interface()
 	switch tmp := x.(type) {
 	case FileIdMsg:
+		if f.msgAdder != nil {
+			// The file type was fixed by the first file_id message and
+			// init has attached the matching container.
+			tmp.Type = f.FileId.Type
+		}
 		f.FileId = tmp
 	case FileCreatorMsg:
 		f.FileCreator = &tmp
